@@ -4,9 +4,9 @@ import TsVerif.C03.LangLemmas
 -/
 namespace TsVerif.C03
 
-theorem dedupD_fold_sub (l : List (List Tok × Int)) :
-    ∀ (acc : Std.HashSet (List Tok × Int) × List (List Tok × Int)) (x : List Tok × Int),
-      x ∈ (l.foldl (fun (acc : Std.HashSet (List Tok × Int) × List (List Tok × Int)) x =>
+theorem dedupD_fold_sub (l : List DItem) :
+    ∀ (acc : Std.HashSet DItem × List DItem) (x : DItem),
+      x ∈ (l.foldl (fun (acc : Std.HashSet DItem × List DItem) x =>
           if acc.1.contains x then acc else (acc.1.insert x, x :: acc.2)) acc).2 → x ∈ acc.2 ∨ x ∈ l := by
   induction l with
   | nil => intro acc x h; exact .inl h
@@ -21,15 +21,15 @@ theorem dedupD_fold_sub (l : List (List Tok × Int)) :
         · exact .inl h''
     · exact .inr (List.mem_cons_of_mem _ h')
 
-theorem dedupD_sub (l : List (List Tok × Int)) (x : List Tok × Int) (h : x ∈ dedupD l) : x ∈ l := by
+theorem dedupD_sub (l : List DItem) (x : DItem) (h : x ∈ dedupD l) : x ∈ l := by
   unfold dedupD at h
   rw [List.mem_reverse] at h
   rcases dedupD_fold_sub l _ x h with h' | h'
   · simp at h'
   · exact h'
 
-theorem concatD_mem (L : Nat) (A B : List (List Tok × Int)) (x : List Tok × Int) (h : x ∈ concatD L A B) :
-    ∃ u v, u ∈ A ∧ v ∈ B ∧ x = (u.1 ++ v.1, u.2 + v.2) := by
+theorem concatD_mem (L : Nat) (A B : List DItem) (x : DItem) (h : x ∈ concatD L A B) :
+    ∃ u v, u ∈ A ∧ v ∈ B ∧ x = ⟨u.w ++ v.w, comb u.own v.own, comb u.inl v.inl, u.e + v.e⟩ := by
   unfold concatD at h
   simp only [List.mem_flatMap, List.mem_filterMap] at h
   obtain ⟨u, hu, v, hv, hw⟩ := h
@@ -37,24 +37,37 @@ theorem concatD_mem (L : Nat) (A B : List (List Tok × Int)) (x : List Tok × In
   · cases hw; exact ⟨u, v, hu, hv, rfl⟩
   · cases hw
 
-theorem repCloseD_sound (g : Grammar) (a : Rule) (L : Nat) (A : List (List Tok × Int))
-    (hA : ∀ x, x ∈ A → DerivesTokD g a x.1 x.2) : ∀ k x, x ∈ repCloseD L A k → DerivesTokD g (.rep a) x.1 x.2 := by
+theorem concatRep_mem (L : Nat) (R A : List DItem) (x : DItem) (h : x ∈ concatRep L R A) :
+    ∃ u v, u ∈ R ∧ v ∈ A ∧ x = ⟨u.w ++ v.w, 0, 0, u.e + (comb v.own v.inl + v.e)⟩ := by
+  unfold concatRep at h
+  simp only [List.mem_flatMap, List.mem_filterMap] at h
+  obtain ⟨u, hu, v, hv, hw⟩ := h
+  split at hw
+  · cases hw; exact ⟨u, v, hu, hv, rfl⟩
+  · cases hw
+
+/-- what it means for an enumerated item to be backed by a derivation -/
+def Backed (g : Grammar) (r : Rule) (x : DItem) : Prop := DerivesTokD g r x.w x.own x.inl x.e
+
+theorem repCloseD_sound (g : Grammar) (a : Rule) (L : Nat) (A : List DItem)
+    (hA : ∀ x, x ∈ A → Backed g a x) : ∀ k x, x ∈ repCloseD L A k →
+      x.own = 0 ∧ x.inl = 0 ∧ DerivesTokD g (.rep a) x.w 0 0 x.e := by
   intro k
   induction k with
-  | zero => intro x h; simp [repCloseD] at h; subst h; exact .repNil
+  | zero => intro x h; simp [repCloseD] at h; subst h; exact ⟨rfl, rfl, .repNil⟩
   | succ k ih =>
     intro x h
     simp only [repCloseD] at h
     rcases List.mem_append.mp (dedupD_sub _ _ h) with h | h
     · exact ih x h
-    · obtain ⟨u, v, hu, hv, rfl⟩ := concatD_mem _ _ _ _ h
-      exact .repCons (ih u hu) (hA v hv)
+    · obtain ⟨u, v, hu, hv, rfl⟩ := concatRep_mem _ _ _ _ h
+      exact ⟨rfl, rfl, .repCons (ih u hu).2.2 (hA v hv)⟩
 
 def EnvDSound (g : Grammar) (env : EnvD) : Prop :=
-  ∀ x e, e ∈ env.get x → ∀ b, g.body x = some b → isTerminalBody b = false → DerivesTokD g b e.1 e.2
+  ∀ x d, d ∈ env.get x → ∀ b, g.body x = some b → isTerminalBody b = false → Backed g b d
 
 theorem evalRuleD_sound (g : Grammar) (env : EnvD) (L : Nat) (henv : EnvDSound g env) :
-    ∀ (r : Rule) (x : List Tok × Int), x ∈ evalRuleD g env L r → DerivesTokD g r x.1 x.2 := by
+    ∀ (r : Rule) (x : DItem), x ∈ evalRuleD g env L r → Backed g r x := by
   intro r
   induction r with
   | blank => intro x h; simp [evalRuleD] at h; subst h; exact .blank
@@ -69,7 +82,15 @@ theorem evalRuleD_sound (g : Grammar) (env : EnvD) (L : Nat) (henv : EnvDSound g
       · next ht => simp at h; subst h; exact .symTok hb ht
       · next ht =>
         have ht' : isTerminalBody b = false := by simpa using ht
-        exact .symRule hb ht' (henv y x h b hb ht')
+        split at h
+        · next hin =>
+          simp only [List.mem_map] at h
+          obtain ⟨d, hd, rfl⟩ := h
+          exact .symInline hb ht' hin (henv y d hd b hb ht')
+        · next hin =>
+          simp only [List.mem_map] at h
+          obtain ⟨d, hd, rfl⟩ := h
+          exact .symRule hb ht' (by simpa using hin) (henv y d hd b hb ht')
     · simp at h
   | seq a b iha ihb =>
     intro x h
@@ -85,12 +106,17 @@ theorem evalRuleD_sound (g : Grammar) (env : EnvD) (L : Nat) (henv : EnvDSound g
   | rep a iha =>
     intro x h
     simp only [evalRuleD] at h
-    exact repCloseD_sound g a L _ iha L x h
+    have hx := (List.mem_filter.mp h).1
+    obtain ⟨h1, h2, h3⟩ := repCloseD_sound g a L _ iha L x hx
+    unfold Backed
+    rw [h1, h2]
+    exact h3
   | rep1 a iha =>
     intro x h
     simp only [evalRuleD] at h
-    obtain ⟨u, v, hu, hv, rfl⟩ := concatD_mem _ _ _ _ (dedupD_sub _ _ h)
-    exact .rep1 (repCloseD_sound g a L _ iha L u hu) (iha v hv)
+    obtain ⟨u, v, hu, hv, rfl⟩ := concatRep_mem _ _ _ _ (dedupD_sub _ _ h)
+    have hu' := (List.mem_filter.mp hu).1
+    exact .rep1 (repCloseD_sound g a L _ iha L u hu').2.2 (iha v hv)
   | field n a iha => intro x h; simp only [evalRuleD] at h; exact .field (iha x h)
   | «alias» v n a iha => intro x h; simp only [evalRuleD] at h; exact .alias (iha x h)
   | token a _ => intro x h; simp [evalRuleD] at h
@@ -102,31 +128,26 @@ theorem evalRuleD_sound (g : Grammar) (env : EnvD) (L : Nat) (henv : EnvDSound g
     · next hk =>
       subst hk
       simp only [List.mem_map] at h
-      obtain ⟨e, he, rfl⟩ := h
-      exact .precDyn (iha e he)
+      obtain ⟨d, hd, rfl⟩ := h
+      exact .precDyn (iha d hd)
     · next hk => exact .prec hk (iha x h)
   | unknown ty => intro x h; simp [evalRuleD] at h
 
-theorem lookup_map_memD {β γ : Type} (f : String × β → γ) :
-    ∀ (l : List (String × β)) (x : String) (v : γ),
-      (l.map fun e => (e.1, f e)).lookup x = some v → ∃ b, l.lookup x = some b ∧ v = f (x, b) :=
-  lookup_map_mem f
-
 theorem enumStepD_sound (g : Grammar) (L : Nat) (env : EnvD) (henv : EnvDSound g env) : EnvDSound g (enumStepD g L env) := by
-  intro x e he b hb _
-  unfold EnvD.get enumStepD at he
+  intro x d hd b hb _
+  unfold EnvD.get enumStepD at hd
   cases hl : (g.rules.map fun (x, b) => (x, evalRuleD g env L b)).lookup x with
-  | none => rw [hl] at he; simp at he
+  | none => rw [hl] at hd; simp at hd
   | some v =>
-    rw [hl] at he
-    simp only [Option.getD_some] at he
+    rw [hl] at hd
+    simp only [Option.getD_some] at hd
     obtain ⟨b', hb', hv⟩ := lookup_map_mem (fun e => evalRuleD g env L e.2) g.rules x v hl
     have : b' = b := by
       unfold Grammar.body at hb
       rw [hb'] at hb
       cases hb; rfl
     subst this hv
-    exact evalRuleD_sound g env L henv b' e he
+    exact evalRuleD_sound g env L henv b' d hd
 
 theorem enumFixD_sound (g : Grammar) (L : Nat) : ∀ (cap k : Nat) (env : EnvD), EnvDSound g env →
     EnvDSound g (enumFixD g L cap k env).1 := by
